@@ -290,6 +290,8 @@ def check_C19(rep, known):
     recs = rng.sample(plain, min(n, len(plain))) + rng.sample(scaled, min(n // 3, len(scaled))) + rng.sample(multi, min(n // 3, len(multi))) + rng.sample(cat, min(n // 4, len(cat)))
     outs = engine.pool_map('funs', 'replay', recs)
     engine.process_results(rep, recs, outs, [r'C19\.'], known)
+    import funs
+    engine.process_results(rep, [{'sc': {'kind': 'z-argument'}}], [{'results': funs.zarg(), 'error': None}], [r'C19\.'], known)
 
 
 def check_C03(rep, known):
